@@ -89,8 +89,9 @@ def gen_def(rnd, depth, top=True, allow_name=True):
         members.append((t, s))
     if not members:
         return gen_def(rnd, 0, top=False)
-    ws = rnd.choice(("\n    ", " ", "\t", "\n\n  ", "   # a comment < with > brackets\n  ")) if rnd.random() < 0.9 else " "
-    ws_plain = rnd.choice(("\n    ", " ", "\t"))
+    ws = rnd.choice(("\n    ", " ", "\t", "\n\n  ", "   # a comment < with > brackets\n  ", "\r", "\r\n  ", " # comment ended by CR <\r ",
+                     "\t# comment ended by CRLF >\r\n")) if rnd.random() < 0.9 else " "
+    ws_plain = rnd.choice(("\n    ", " ", "\t", "\r", "\r\n"))
     body = ws_plain.join(t for t, _ in members)
     text = f"<{rnd.choice((' ', '', '  '))}L{(' ' + name) if name else ''}{ws}{body}{ws_plain}>"
     if name and len(members) >= 2 and members[0][1][0] != "item":
@@ -143,14 +144,14 @@ def bnd_generated(tier, seed):
         # text after whitespace normalisation, different meaning: the line break ends the comment), read in the same process
         if "#" in text:
             twins = []
-            for m_ in re.finditer(r"#[^\n]*\n", text):
+            for m_ in re.finditer(r"#[^\n\r]*[\n\r]", text):
                 twins.append(text[:m_.end() - 1] + " " + text[m_.end():])            # comment swallows the rest of the next line
                 twins.append(text[:m_.start() + 1] + "\n" + text[m_.start() + 1:])   # comment text becomes definition text
             for tw in twins[:4]:
                 n_eval += 1
                 # documented: a comment runs from '#' to the line break and is ignored - so the twin must be read exactly
                 # like the same text with its comments blanked out (accepted with the same shape, or rejected alike)
-                blank = re.sub(r"#[^\n]*", " ", tw)
+                blank = re.sub(r"#[^\n\r]*", " ", tw)
                 outcomes = []
                 for t_ in (tw, blank):
                     try:
@@ -163,7 +164,7 @@ def bnd_generated(tier, seed):
                               "a definition read after a well-formed text that differs from it only in a line break next to a comment is not read like "
                               "the same text with the comments removed (a bracket swallowed by a comment was accepted, or the other text's shape was returned)")
         # mutations of this definition
-        toks_close = [i for i, ch in enumerate(text) if ch == ">" and "#" not in text[text.rfind("\n", 0, i) + 1:i]]
+        toks_close = [i for i, ch in enumerate(text) if ch == ">" and "#" not in text[max(text.rfind("\n", 0, i), text.rfind("\r", 0, i)) + 1:i]]
         for p in rnd.sample(toks_close, min(2, len(toks_close))):
             n_eval += 1
             mutated = text[:p] + " " + text[p + 1:]
